@@ -8,11 +8,13 @@ import (
 	"math/rand"
 	"net"
 	"os"
+	"runtime"
 	"sort"
 	"strconv"
 	"strings"
 	"sync"
 	"sync/atomic"
+	"time"
 
 	"github.com/gocql/gocql"
 	"verifharness/vh"
@@ -41,6 +43,41 @@ type world struct {
 	// the previous pick, if it was a full drain handed to the round-robin policy as it is and nothing
 	// happened since (rotation of the starting host between successive picks)
 	lastPlain []*gocql.HostInfo
+	// third round: session keyspace + keyspace metadata (tables recomputed by the code itself), live iterators,
+	// concurrent bursts
+	sessKs  string            // "" = a keyspace no query names
+	ksMeta  map[string]string // keyspace -> "local" | replication factor of SimpleStrategy (absent: unknown keyspace)
+	injSess bool              // a `repl` line installed a table for the session keyspace (hook, not the code's path)
+	slots   map[int]*slot
+	epoch   int          // number of mutating ops so far
+	taint   map[int]bool // hosts with non-commuting concurrent calls not yet settled by a sequential add/remove
+	pending []burstCall  // the burst waiting for its `settle` line
+	mutLog  []mutRec     // which host every notifier call was about (by epoch)
+	// a call of a burst panicked or never returned (it may hold the policy's locks): the policy is not used any more
+	poisoned bool
+}
+
+type mutRec struct{ epoch, id int }
+
+// slot: one live iterator (op `open`)
+type slot struct {
+	it      gocql.NextHost
+	given   []*gocql.HostInfo
+	head    []*gocql.HostInfo // specified replica head (nil: replica list with duplicates)
+	headAny []*gocql.HostInfo
+	reps    []*gocql.HostInfo
+	known   bool // the query has a replica list
+	fresh   bool
+	dupReps bool
+	epoch   int
+	ended   bool
+	broken  bool
+	expOpen map[int]bool // the hosts the history expected when the iterator was created
+}
+
+type burstCall struct {
+	call string
+	id   int
 }
 
 type hstat struct {
@@ -182,17 +219,7 @@ func (w *world) specReplicas(ks string, tokS string, perms string) (reps []*gocq
 		}
 		return reps, true, false
 	}
-	var taHosts []*gocql.HostInfo
-	if w.alias() {
-		_, taHosts, _ = gocql.VerifPolicyLists(w.pol)
-	} else {
-		// the token-aware policy's own list = the hosts added and not removed since (history)
-		for _, id := range w.sortedIDs() {
-			if w.stat(id).known {
-				taHosts = append(taHosts, w.hosts[id])
-			}
-		}
-	}
+	taHosts := w.taHostsSpec()
 	var owner, first *gocql.HostInfo
 	best, lo := -1, -1
 	for _, h := range taHosts {
@@ -212,6 +239,80 @@ func (w *world) specReplicas(ks string, tokS string, perms string) (reps []*gocq
 		return nil, false, true
 	}
 	return []*gocql.HostInfo{owner}, true, false
+}
+
+// taHostsSpec: the token-aware policy's own list = the hosts added and not removed since (history); with two
+// host objects on one address the history definition is not applicable and the policy's list is used
+func (w *world) taHostsSpec() []*gocql.HostInfo {
+	var taHosts []*gocql.HostInfo
+	if w.alias() {
+		_, taHosts, _ = gocql.VerifPolicyLists(w.pol)
+		return taHosts
+	}
+	for _, id := range w.sortedIDs() {
+		if w.stat(id).known {
+			taHosts = append(taHosts, w.hosts[id])
+		}
+	}
+	return taHosts
+}
+
+// specFresh: the replica list of a query on keyspace ks is guaranteed fresh - it comes from the token ring
+// (no table) or from the table of the SESSION keyspace, which AddHost / RemoveHost recompute
+func (w *world) specFresh(ks string) bool {
+	if ks == "-" {
+		return true
+	}
+	return len(w.tables["ks"+ks]) == 0 || ("ks"+ks == w.sessKs && !w.injSess)
+}
+
+// specRefresh: the harness' own SimpleStrategy placement (Cassandra: walk the ring clockwise from the token,
+// the first rf distinct nodes) over the hosts the history knows - what updateReplicas(ks) must produce;
+// no usable strategy / unknown keyspace: the keyspace has no table
+func (w *world) specRefresh(ksName string) {
+	if !w.isTA || !w.partSet {
+		return
+	}
+	delete(w.tables, ksName)
+	delete(w.tableDup, ksName)
+	m, ok := w.ksMeta[ksName]
+	if !ok || m == "local" {
+		return
+	}
+	rf := atoi(m)
+	type rt struct {
+		tok int
+		h   *gocql.HostInfo
+	}
+	var ring []rt
+	for _, h := range w.taHostsSpec() {
+		for _, t := range w.attrs[h].toks {
+			ring = append(ring, rt{t, h})
+		}
+	}
+	sort.Slice(ring, func(i, j int) bool { return ring[i].tok < ring[j].tok })
+	tab := make([]tabEntry, 0, len(ring))
+	for i := range ring {
+		var reps []*gocql.HostInfo
+		for j := 0; j < len(ring) && len(reps) < rf; j++ {
+			h := ring[(i+j)%len(ring)].h
+			dup := false
+			for _, x := range reps {
+				if x == h {
+					dup = true
+				}
+			}
+			if !dup {
+				reps = append(reps, h)
+			}
+		}
+		tab = append(tab, tabEntry{tok: ring[i].tok, hosts: reps})
+	}
+	w.tables[ksName] = tab
+	if len(tab) == 0 {
+		// an empty table is held but never consulted (replicasFor of an empty table is nil)
+		delete(w.tables, ksName)
+	}
 }
 
 // specHead: SPECIFICATION of the replica phases (Lean: Policies.specHead; the model's head is proved
@@ -362,6 +463,9 @@ func (w *world) exec(op string) (res string) {
 	if len(f) == 0 {
 		return "bad-op"
 	}
+	if w.poisoned && f[0] != "reset" && f[0] != "host" {
+		return "poisoned"
+	}
 	switch f[0] {
 	case "reset":
 		if len(f) != 8 {
@@ -393,9 +497,13 @@ func (w *world) exec(op string) (res string) {
 		w.tableDup = map[string]bool{}
 		w.hot = false
 		w.lastPlain = nil
+		w.sessKs, w.ksMeta, w.injSess = "", map[string]string{}, false
+		w.slots, w.epoch, w.taint, w.pending, w.mutLog = map[int]*slot{}, 0, map[int]bool{}, nil, nil
+		w.poisoned = false
 		if w.isTA {
 			w.pol = newTA(fb, f[5] == "1", f[6] == "1")
 			gocql.VerifTAInit(w.pol, "verif_session_ks")
+			gocql.VerifTAKeyspaces(w.pol, "verif_session_ks", w.lookupKs)
 			if f[7] == "1" {
 				w.pol.SetPartitioner("OrderedPartitioner")
 			}
@@ -429,24 +537,69 @@ func (w *world) exec(op string) (res string) {
 			return "bad-op"
 		}
 		w.lastPlain = nil
-		w.record(f[0], atoi(f[1]))
-		switch f[0] {
-		case "add":
-			w.pol.AddHost(h)
-		case "remove":
-			w.pol.RemoveHost(h)
-		case "hup":
-			w.pol.HostUp(h)
-		case "hdown":
-			w.pol.HostDown(h)
+		w.epoch++
+		w.mutLog = append(w.mutLog, mutRec{w.epoch, atoi(f[1])})
+		w.call(f[0], atoi(f[1]), h)
+		if f[0] == "add" || f[0] == "remove" {
+			delete(w.taint, atoi(f[1]))
 		}
 		return w.snapshot()
+	case "sessks":
+		if len(f) != 2 {
+			return "bad-op"
+		}
+		w.epoch++
+		w.sessKs = "ks" + f[1]
+		if w.isTA {
+			gocql.VerifTAKeyspaces(w.pol, w.sessKs, w.lookupKs)
+		}
+		return "ok"
+	case "ksmeta":
+		if len(f) != 3 {
+			return "bad-op"
+		}
+		w.epoch++
+		if f[2] == "none" {
+			delete(w.ksMeta, "ks"+f[1])
+		} else {
+			w.ksMeta["ks"+f[1]] = f[2]
+		}
+		return "ok"
+	case "kschg":
+		if len(f) != 2 {
+			return "bad-op"
+		}
+		w.epoch++
+		w.lastPlain = nil
+		w.pol.KeyspaceChanged(gocql.KeyspaceUpdateEvent{Keyspace: "ks" + f[1], Change: "UPDATED"})
+		w.specRefresh("ks" + f[1])
+		return "ok"
+	case "table":
+		if len(f) != 2 {
+			return "bad-op"
+		}
+		if !w.isTA {
+			return "none"
+		}
+		toks, hs, ok := gocql.VerifTAReplicaTable(w.pol, "ks"+f[1])
+		if !ok {
+			return "none"
+		}
+		if len(toks) == 0 {
+			return "empty"
+		}
+		parts := make([]string, len(toks))
+		for i := range toks {
+			parts[i] = strconv.Itoa(atoi(toks[i])) + ":" + w.showIDs(hs[i])
+		}
+		return strings.Join(parts, " ")
 	case "state":
 		h, ok := w.hosts[atoi(f[1])]
 		if !ok {
 			return "bad-op"
 		}
 		w.lastPlain = nil
+		w.slots = map[int]*slot{} // the state of the hosts is fixed during the life of an iterator
 		gocql.VerifSetHostUp(h, f[2] == "1")
 		return "ok"
 	case "ctr":
@@ -458,6 +611,7 @@ func (w *world) exec(op string) (res string) {
 			return "bad-op"
 		}
 		w.lastPlain = nil
+		w.epoch++
 		if !gocql.VerifSetPickCount(w.pol, n) {
 			return "crash:verif hook: the policy has no rotation counter named lastUsedHostIdx"
 		}
@@ -465,6 +619,7 @@ func (w *world) exec(op string) (res string) {
 		return "ok"
 	case "repl":
 		w.lastPlain = nil
+		w.epoch++
 		var toks []string
 		var hs [][]*gocql.HostInfo
 		for _, e := range f[2:] {
@@ -486,9 +641,13 @@ func (w *world) exec(op string) (res string) {
 		}
 		if w.isTA {
 			if gocql.VerifTASetReplicas(w.pol, "ks"+f[1], toks, hs) {
+				if "ks"+f[1] == w.sessKs {
+					w.injSess = true
+				}
 				tab := make([]tabEntry, len(hs))
 				for i := range hs {
-					tab[i] = tabEntry{tok: atoi(strings.SplitN(f[2+i], ":", 2)[0]), hosts: hs[i]}
+					// the harness keeps its OWN copy of every replica list (the policy must not be able to change the specification)
+					tab[i] = tabEntry{tok: atoi(strings.SplitN(f[2+i], ":", 2)[0]), hosts: append([]*gocql.HostInfo(nil), hs[i]...)}
 				}
 				sort.Slice(tab, func(i, j int) bool { return tab[i].tok < tab[j].tok })
 				w.tables["ks"+f[1]] = tab
@@ -508,6 +667,7 @@ func (w *world) exec(op string) (res string) {
 		if isOffer && w.offerExcluded(f[1], f[2], perms) != "" {
 			return "excluded"
 		}
+		fresh := w.specFresh(f[1])
 		var rk []byte
 		if f[1] != "-" && f[2] != "-" {
 			rk = []byte(tok(atoi(f[2])))
@@ -555,18 +715,12 @@ func (w *world) exec(op string) (res string) {
 			}
 		}
 		// the property itself, evaluated on the real sequence: the replica phases (every pick) ...
-		for i, h := range head {
-			if i >= limit {
-				break
-			}
-			if i >= len(got) || got[i] != h {
-				return "crash:property violated on the real code: replicas not offered first, tier by tier: expected head=" +
-					w.showIDs(head) + " offered=" + w.showIDs(got)
-			}
+		if v := w.headViolation(head, got, limit, limit < 1000 && len(got) == limit); v != "" {
+			return "crash:property violated on the real code: " + v
 		}
 		// ... and on a full drain: only up hosts, every up host, no host twice
 		if limit >= 1000 && !noOracle {
-			if v := w.oracle(got, len(head), dupReps, headAny); v != "" {
+			if v := w.oracle(got, len(head), dupReps, headAny, fresh); v != "" {
 				return "crash:property violated on the real code: " + v + " offered=" + w.showIDs(got)
 			}
 			// ... and between two successive full drains handed to the round-robin policy as they are
@@ -581,30 +735,529 @@ func (w *world) exec(op string) (res string) {
 			}
 		}
 		if isOffer {
-			ids := make([]int, len(got))
-			for i, h := range got {
-				ids[i] = w.ids[h]
-			}
-			sort.Ints(ids)
-			if len(ids) == 0 {
-				return "-"
-			}
-			ss := make([]string, len(ids))
-			for i, v := range ids {
-				ss[i] = strconv.Itoa(v)
-			}
-			return strings.Join(ss, ",")
+			return w.sortedShow(got)
 		}
 		return w.showIDs(got)
+	case "rotate":
+		// rotate <ks|-> <tok|-> <m>: m successive Picks, each drained, nothing in between. SPEC-BACKED: per tier the
+		// histogram "how often is this host the FIRST one offered from its tier (after the replica phases)" must be
+		// balanced (Lean: Policies.tierBalanced; C11_rotation_balanced_partial proves it for the model): with n hosts
+		// listed in the tier BY THE HISTORY (last call AddHost / HostUp) of which d cannot be offered (state down, or
+		// offered by the replica phases), every other host of the tier is first at least floor(m/n) and at most
+		// ceil(m/n)*(1+d) times - with d = 0 the same number of times +-1. Every drain is also checked like `offer`.
+		if len(f) != 4 {
+			return "bad-op"
+		}
+		m := atoi(f[3])
+		if m < 0 || m > 100000 {
+			return "bad-op"
+		}
+		reps, known, _ := w.specReplicas(f[1], f[2], "-")
+		fresh := w.specFresh(f[1])
+		if w.exclusion(reps, known, fresh) != "" {
+			return "excluded"
+		}
+		var rk []byte
+		if f[1] != "-" && f[2] != "-" {
+			rk = []byte(tok(atoi(f[2])))
+		}
+		if w.shuf {
+			gocql.VerifSeedShuffle(int64(m)) // the order inside the replica phases does not matter here; determinism does
+		}
+		var head []*gocql.HostInfo
+		if known {
+			head = w.specHead(reps)
+		}
+		inHead := map[*gocql.HostInfo]bool{}
+		for _, h := range head {
+			inHead[h] = true
+		}
+		var listed [3][]*gocql.HostInfo
+		for _, id := range w.sortedIDs() {
+			if st := w.stat(id); st.last == "add" || st.last == "hup" {
+				h := w.hosts[id]
+				listed[w.tier(h)] = append(listed[w.tier(h)], h)
+			}
+		}
+		hits := map[*gocql.HostInfo]int{}
+		var prev []*gocql.HostInfo
+		w.lastPlain = nil
+		for p := 0; p < m; p++ {
+			it := w.pol.Pick(gocql.VerifQuery("ks"+f[1], rk))
+			var got []*gocql.HostInfo
+			for {
+				sh := it()
+				if sh == nil {
+					break
+				}
+				if sh.Info() == nil {
+					return "crash:property violated on the real code: nil host offered"
+				}
+				got = append(got, sh.Info())
+				if len(got) > 500 {
+					return "crash:property violated on the real code: the iterator does not end"
+				}
+			}
+			if !noOracle {
+				if v := w.headViolation(head, got, 1000, false); v != "" {
+					return "crash:property violated on the real code: " + v
+				}
+				if v := w.oracle(got, len(head), false, head, fresh); v != "" {
+					return "crash:property violated on the real code: " + v + " offered=" + w.showIDs(got)
+				}
+				if !known && prev != nil {
+					if v := w.rotation(prev, got); v != "" {
+						return "crash:property violated on the real code: " + v + " previous=" + w.showIDs(prev) + " offered=" + w.showIDs(got)
+					}
+				}
+			}
+			prev = got
+			rest := got
+			if len(head) <= len(got) {
+				rest = got[len(head):]
+			}
+			var seenTier [3]bool
+			for _, h := range rest {
+				if t := w.tier(h); !seenTier[t] {
+					seenTier[t] = true
+					hits[h]++
+				}
+			}
+		}
+		for t := 0; t < 3; t++ {
+			n := len(listed[t])
+			if n == 0 {
+				continue
+			}
+			d := 0
+			for _, h := range listed[t] {
+				if !h.IsUp() || inHead[h] {
+					d++
+				}
+			}
+			lo, hi := m/n, (m+n-1)/n*(1+d)
+			for _, h := range listed[t] {
+				if h.IsUp() && !inHead[h] && (hits[h] < lo || hits[h] > hi) {
+					if os.Getenv("VERIF_DEBUG") != "" {
+						fmt.Fprintf(os.Stderr, "rotate: tier %d host %d first %d times in %d picks, expected %d..%d (n=%d d=%d)\n", t, w.ids[h], hits[h], m, lo, hi, n, d)
+					}
+					return fmt.Sprintf("skewed:%d", t)
+				}
+			}
+		}
+		return "balanced"
+	case "open":
+		// open <slot> <ks|-> <tok|-> <perms|->
+		if len(f) != 5 {
+			return "bad-op"
+		}
+		perms := f[4]
+		var rk []byte
+		if f[2] != "-" && f[3] != "-" {
+			rk = []byte(tok(atoi(f[3])))
+		}
+		if perms != "-" {
+			sd, ok := findSeed(perms)
+			if !ok {
+				return "bad-op"
+			}
+			gocql.VerifSeedShuffle(sd)
+		}
+		sl := &slot{epoch: w.epoch, fresh: w.specFresh(f[2])}
+		sl.reps, sl.known, _ = w.specReplicas(f[2], f[3], perms)
+		if sl.known {
+			sl.headAny = w.specHead(sl.reps)
+			if !hasDup(sl.reps) {
+				sl.head = sl.headAny
+			} else {
+				sl.dupReps = true
+			}
+		}
+		sl.expOpen = map[int]bool{}
+		for id, h := range w.hosts {
+			if w.stat(id).expected(h.IsUp()) {
+				sl.expOpen[id] = true
+			}
+		}
+		w.lastPlain = nil
+		sl.it = w.pol.Pick(gocql.VerifQuery("ks"+f[2], rk))
+		w.slots[atoi(f[1])] = sl
+		return "ok"
+	case "next", "offerit":
+		// next <slot> <n>        offerit <slot>
+		isOffer := f[0] == "offerit"
+		if (isOffer && len(f) != 2) || (!isOffer && len(f) != 3) {
+			return "bad-op"
+		}
+		sl, ok := w.slots[atoi(f[1])]
+		if !ok || sl.broken {
+			return "bad-op"
+		}
+		n := 1000
+		if !isOffer {
+			n = atoi(f[2])
+		} else if w.slotExcluded(sl) != "" {
+			return "excluded"
+		}
+		w.lastPlain = nil
+		sl.broken = true // stays so if a call panics
+		var got []*gocql.HostInfo
+		ended := false
+		for k := 0; k < n; k++ {
+			sh := sl.it()
+			if sh == nil {
+				ended = true
+				break
+			}
+			if sh.Info() == nil {
+				return "crash:property violated on the real code: nil host offered"
+			}
+			got = append(got, sh.Info())
+			sl.given = append(sl.given, sh.Info())
+			if len(sl.given) > 500 {
+				return "crash:property violated on the real code: the iterator does not end"
+			}
+		}
+		sl.broken = false
+		sl.ended = sl.ended || ended
+		// the property, evaluated on what THIS iterator has offered since its Pick - whatever other iterators did meanwhile
+		if !noOracle {
+			if !sl.dupReps {
+				seen := map[*gocql.HostInfo]bool{}
+				for _, h := range sl.given {
+					if seen[h] {
+						return fmt.Sprintf("crash:property violated on the real code: host %d offered twice by one iterator: offered=%s", w.ids[h], w.showIDs(sl.given))
+					}
+					seen[h] = true
+				}
+			}
+			for _, h := range got {
+				if !h.IsUp() {
+					return "crash:property violated on the real code: down host offered"
+				}
+			}
+			if v := w.headViolation(sl.head, sl.given, 1000, !sl.ended); v != "" {
+				return "crash:property violated on the real code: " + v
+			}
+			if sl.ended && sl.epoch == w.epoch {
+				if v := w.oracle(sl.given, len(sl.head), sl.dupReps, sl.headAny, sl.fresh); v != "" {
+					return "crash:property violated on the real code: " + v + " offered=" + w.showIDs(sl.given)
+				}
+			}
+			if sl.ended && sl.epoch != w.epoch && !w.alias() && !w.hot {
+				// topology calls happened during the life of the iterator: a host that the history expected when the iterator
+				// was created, still expects, and that no call was about in between, must have been offered
+				touched := map[int]bool{}
+				for _, m := range w.mutLog {
+					if m.epoch > sl.epoch {
+						touched[m.id] = true
+					}
+				}
+				seen := map[*gocql.HostInfo]bool{}
+				for _, h := range sl.given {
+					seen[h] = true
+				}
+				for _, id := range w.sortedIDs() {
+					h := w.hosts[id]
+					if sl.expOpen[id] && !touched[id] && !w.taint[id] && w.stat(id).expected(h.IsUp()) && !seen[h] {
+						return fmt.Sprintf("crash:property violated on the real code: host %d was known and up during the whole life of the iterator (no call about it) but is not offered: offered=%s", id, w.showIDs(sl.given))
+					}
+				}
+			}
+		}
+		if isOffer {
+			return w.sortedShow(sl.given)
+		}
+		if ended {
+			return w.showIDs(got) + " end"
+		}
+		return w.showIDs(got)
+	case "burst":
+		// burst <call>:<id> ...   the calls run concurrently, one goroutine each, released together
+		if len(f) < 2 || w.alias() {
+			return "bad-op"
+		}
+		var calls []burstCall
+		for _, c := range f[1:] {
+			p := strings.SplitN(c, ":", 2)
+			if len(p) != 2 {
+				return "bad-op"
+			}
+			switch p[0] {
+			case "add", "remove", "hup", "hdown":
+			default:
+				return "bad-op"
+			}
+			if _, ok := w.hosts[atoi(p[1])]; !ok {
+				return "bad-op"
+			}
+			calls = append(calls, burstCall{p[0], atoi(p[1])})
+		}
+		w.lastPlain = nil
+		w.epoch++
+		var arrived int32
+		var wg sync.WaitGroup
+		panics := make([]string, len(calls))
+		for i, c := range calls {
+			wg.Add(1)
+			go func(i int, c burstCall) {
+				defer wg.Done()
+				defer func() {
+					if r := recover(); r != nil {
+						panics[i] = fmt.Sprint(r)
+					}
+				}()
+				h := w.hosts[c.id]
+				// barrier: every goroutine spins until all have arrived (event order only, no clock)
+				atomic.AddInt32(&arrived, 1)
+				for atomic.LoadInt32(&arrived) < int32(len(calls)) {
+					runtime.Gosched()
+				}
+				switch c.call {
+				case "add":
+					w.pol.AddHost(h)
+				case "remove":
+					w.pol.RemoveHost(h)
+				case "hup":
+					w.pol.HostUp(h)
+				case "hdown":
+					w.pol.HostDown(h)
+				}
+			}(i, c)
+		}
+		done := make(chan struct{})
+		go func() { wg.Wait(); close(done) }()
+		select {
+		case <-done:
+		case <-time.After(30 * time.Second):
+			// watchdog (never decides on the unchanged code: a burst takes microseconds): counted only with a goroutine
+			// blocked inside gocql code
+			buf := make([]byte, 1<<20)
+			buf = buf[:runtime.Stack(buf, true)]
+			w.poisoned = true
+			if strings.Contains(string(buf), "gocql.(*") {
+				where := ""
+				for _, l := range strings.Split(string(buf), "\n") {
+					if strings.HasPrefix(l, "github.com/gocql/gocql.") {
+						where = l
+						break
+					}
+				}
+				return "crash:a call of the burst did not return within 30 s, goroutine blocked in " + where
+			}
+			return "crash:harness: burst did not finish"
+		}
+		for _, p := range panics {
+			if p != "" {
+				w.poisoned = true
+				return "crash:" + strings.ReplaceAll(p, "\n", " ")
+			}
+		}
+		// quiescent: the history (in line order - for commuting calls every order gives the same status) ...
+		changedT := false
+		for _, c := range calls {
+			w.mutLog = append(w.mutLog, mutRec{w.epoch, c.id})
+			before := w.stat(c.id).known
+			w.record(c.call, c.id)
+			if w.stat(c.id).known != before {
+				changedT = true
+			}
+		}
+		// ... hosts with non-commuting calls are tainted until a sequential add/remove settles them
+		for _, c := range calls {
+			for _, d := range calls {
+				if c.id == d.id && (c.call == "add" || c.call == "hup") && (d.call == "remove" || d.call == "hdown") {
+					w.taint[c.id] = true
+				}
+			}
+		}
+		w.pending = calls
+		if changedT && w.sessKs != "" {
+			w.specRefresh(w.sessKs)
+		}
+		return "ok"
+	case "settle":
+		// settle L0=.. L1=.. L2=.. [T=..]: the lists as observed after the burst (generated from the observation;
+		// the model decides whether some order of the burst's calls explains them)
+		if w.pending == nil {
+			return "bad-op"
+		}
+		calls := w.pending
+		w.pending = nil
+		w.epoch++
+		layers, taHosts, isTA := gocql.VerifPolicyLists(w.pol)
+		for len(layers) < 3 {
+			layers = append(layers, nil)
+		}
+		actual := map[string][]*gocql.HostInfo{"L0": layers[0], "L1": layers[1], "L2": layers[2]}
+		if isTA {
+			actual["T"] = taHosts
+		}
+		same := true
+		for _, kv := range f[1:] {
+			p := strings.SplitN(kv, "=", 2)
+			if len(p) != 2 {
+				return "bad-op"
+			}
+			want := map[int]int{}
+			for _, id := range intList(p[1]) {
+				if _, ok := w.hosts[id]; !ok {
+					return "bad-op"
+				}
+				want[id]++
+			}
+			for _, h := range actual[p[0]] {
+				want[w.ids[h]]--
+			}
+			for _, n := range want {
+				if n != 0 {
+					same = false
+				}
+			}
+		}
+		// a host with add || remove in the burst: the history's "known" follows the policy's own list
+		if isTA {
+			inT := map[int]bool{}
+			for _, h := range taHosts {
+				inT[w.ids[h]] = true
+			}
+			resolved := false
+			for _, c := range calls {
+				for _, d := range calls {
+					if c.id == d.id && c.call == "add" && d.call == "remove" {
+						if st, ok := w.hist[c.id]; ok && st.known != inT[c.id] {
+							st.known = inT[c.id]
+							resolved = true
+						}
+					}
+				}
+			}
+			if resolved && w.sessKs != "" {
+				w.specRefresh(w.sessKs)
+			}
+		}
+		if !same {
+			return "differs:" + w.snapshot()
+		}
+		return "ok"
 	case "race":
 		return "ok"
 	}
 	return "bad-op"
 }
 
+func (w *world) sortedShow(got []*gocql.HostInfo) string {
+	ids := make([]int, len(got))
+	for i, h := range got {
+		ids[i] = w.ids[h]
+	}
+	sort.Ints(ids)
+	if len(ids) == 0 {
+		return "-"
+	}
+	ss := make([]string, len(ids))
+	for i, v := range ids {
+		ss[i] = strconv.Itoa(v)
+	}
+	return strings.Join(ss, ",")
+}
+
+// lookupKs: the keyspace metadata the token-aware policy is given (getKeyspaceMetadata)
+func (w *world) lookupKs(ks string) (string, interface{}, bool) {
+	m, ok := w.ksMeta[ks]
+	if !ok {
+		return "", nil, false
+	}
+	if m == "local" {
+		return "org.apache.cassandra.locator.LocalStrategy", nil, true
+	}
+	return "org.apache.cassandra.locator.SimpleStrategy", m, true
+}
+
+// call: one notifier call on the real policy + the history; the harness' own copy of the session keyspace's
+// table is recomputed when the call changes the set of hosts the policy knows
+func (w *world) call(ev string, id int, h *gocql.HostInfo) {
+	var tBefore []*gocql.HostInfo
+	al := w.isTA && w.alias()
+	if al {
+		_, tBefore, _ = gocql.VerifPolicyLists(w.pol)
+	}
+	before := w.stat(id).known
+	w.record(ev, id)
+	switch ev {
+	case "add":
+		w.pol.AddHost(h)
+	case "remove":
+		w.pol.RemoveHost(h)
+	case "hup":
+		w.pol.HostUp(h)
+	case "hdown":
+		w.pol.HostDown(h)
+	}
+	if !w.isTA || w.sessKs == "" || (ev != "add" && ev != "remove") {
+		return
+	}
+	changed := w.stat(id).known != before
+	if al {
+		_, tAfter, _ := gocql.VerifPolicyLists(w.pol)
+		changed = len(tAfter) != len(tBefore)
+		for i := range tAfter {
+			if i < len(tBefore) && tAfter[i] != tBefore[i] {
+				changed = true
+			}
+		}
+	}
+	if changed {
+		w.specRefresh(w.sessKs)
+	}
+}
+
+// headViolation: the replica phases on the real sequence `got` (the first hosts an iterator offered): the
+// specified head, tier by tier - in replica-list order; with ShuffleReplicas in any order inside a tier
+// (the exact permutation is the model-vs-code comparison's business). partial: the iterator was not drained.
+func (w *world) headViolation(head, got []*gocql.HostInfo, limit int, partial bool) string {
+	inHead := map[*gocql.HostInfo]bool{}
+	for _, h := range head {
+		inHead[h] = true
+	}
+	for i, h := range head {
+		if i >= limit {
+			break
+		}
+		if i >= len(got) {
+			if partial {
+				break
+			}
+			return "replicas not offered first, tier by tier: expected head=" + w.showIDs(head) + " offered=" + w.showIDs(got)
+		}
+		ok := got[i] == h
+		if w.shuf {
+			ok = inHead[got[i]] && w.tier(got[i]) == w.tier(h)
+		}
+		if !ok {
+			return "replicas not offered first, tier by tier: expected head=" + w.showIDs(head) + " offered=" + w.showIDs(got)
+		}
+	}
+	return ""
+}
+
+// slotExcluded: `offerit` is spec-backed unless a mutation happened since the iterator's Pick or an excluded
+// condition of C11_history_exact_partial holds
+func (w *world) slotExcluded(sl *slot) string {
+	if sl.epoch != w.epoch {
+		return "mutated"
+	}
+	return w.exclusion(sl.reps, sl.known, sl.fresh)
+}
+
 // offerExcluded: the excluded conditions of the theorem C11_history_exact_partial, decided from the op
 // lines alone: "" = none (the op `offer` is spec-backed there), otherwise the class of the exclusion.
 func (w *world) offerExcluded(ks, tokS, perms string) string {
+	reps, known, _ := w.specReplicas(ks, tokS, perms)
+	return w.exclusion(reps, known, w.specFresh(ks))
+}
+
+func (w *world) exclusion(reps []*gocql.HostInfo, known, fresh bool) string {
 	if w.alias() {
 		return "alias"
 	}
@@ -616,13 +1269,22 @@ func (w *world) offerExcluded(ks, tokS, perms string) string {
 			return "ghost" // KF-C11-4
 		}
 	}
+	if len(w.taint) > 0 {
+		return "conflict" // non-commuting concurrent calls, not yet settled
+	}
 	if w.tablesHaveDup() {
 		return "duptable"
 	}
-	if reps, known, _ := w.specReplicas(ks, tokS, perms); known {
+	if known {
 		for _, h := range w.specHead(reps) {
-			if !w.stat(w.ids[h]).expected(true) {
-				return "stale" // KF-C11-5
+			st := w.stat(w.ids[h])
+			// KF-C11-5, exactly: (b) reported down while its state is up; (a) removed / never added, in a replica list
+			// that is not recomputed on topology changes (the table of a keyspace other than the session's)
+			if st.last == "hdown" {
+				return "stale-down"
+			}
+			if !st.known && !fresh {
+				return "stale-otherks"
 			}
 		}
 	}
@@ -636,7 +1298,7 @@ func (w *world) offerExcluded(ks, tokS, perms string) string {
 // twice (token-aware: unless the replica list itself has a duplicate), and after the replica phases (the
 // first nHead hosts) nearer tiers before farther ones. With two host objects on one address (alias) the
 // history definition is not applicable and the policy's own lists are used for "the hosts it knows".
-func (w *world) oracle(got []*gocql.HostInfo, nHead int, dupReps bool, headAny []*gocql.HostInfo) string {
+func (w *world) oracle(got []*gocql.HostInfo, nHead int, dupReps bool, headAny []*gocql.HostInfo, fresh bool) string {
 	seen := map[*gocql.HostInfo]int{}
 	for _, h := range got {
 		if !h.IsUp() {
@@ -661,11 +1323,17 @@ func (w *world) oracle(got []*gocql.HostInfo, nHead int, dupReps bool, headAny [
 		for _, id := range w.sortedIDs() {
 			h := w.hosts[id]
 			st := w.stat(id)
+			if w.taint[id] {
+				continue // non-commuting concurrent calls: either outcome is accepted
+			}
+			// KF-C11-5, exactly: a stale replica is excused if it was reported down (state up), or is unknown in a
+			// replica list that is not recomputed on topology changes
+			excused := inHead[h] && (st.last == "hdown" || (!st.known && !fresh))
 			if st.expected(h.IsUp()) {
 				if seen[h] == 0 {
 					return fmt.Sprintf("host %d is known and up by the history (added, not removed, last call %s, state up) but is not offered", id, st.last)
 				}
-			} else if seen[h] > 0 && !st.ghost() && !inHead[h] {
+			} else if seen[h] > 0 && !st.ghost() && !excused {
 				return fmt.Sprintf("host %d is offered but the history does not expect it (known=%v last call=%q)", id, st.known, st.last)
 			}
 		}
@@ -772,6 +1440,7 @@ type gen struct {
 	dist            map[string]int
 	ldc, lrack      int
 	hostDC, hostRck map[int]int
+	sess            int // the session keyspace of the scenario (-1: none)
 }
 
 func (g *gen) emit(op, class string, nontrivial bool) string {
@@ -813,6 +1482,18 @@ func (g *gen) scenario(maxHosts, nOps int) {
 		}
 		g.emit(fmt.Sprintf("host %d %d %d %d %s", id, addr, r.Intn(ndc), r.Intn(nrack), ts), "host", false)
 	}
+	// a third of the token-aware scenarios have keyspace 0 or 1 as SESSION keyspace with known replication
+	g.sess = -1
+	if g.ta && r.Intn(3) == 0 {
+		g.sess = r.Intn(2)
+		g.emit(fmt.Sprintf("sessks %d", g.sess), "sessks", false)
+		if r.Intn(4) != 0 {
+			g.emit(fmt.Sprintf("ksmeta %d %d", g.sess, r.Intn(4)), "ksmeta", false)
+		}
+		if r.Intn(3) == 0 {
+			g.emit(fmt.Sprintf("ksmeta %d %d", 1-g.sess, 1+r.Intn(3)), "ksmeta", false)
+		}
+	}
 	// most scenarios start with most hosts added
 	if r.Intn(5) != 0 {
 		for id := 1; id <= g.n; id++ {
@@ -841,10 +1522,445 @@ func (g *gen) scenario(maxHosts, nOps int) {
 			if g.ta {
 				g.repl()
 			}
+		case x < 47 && g.sess >= 0:
+			switch r.Intn(4) {
+			case 0:
+				g.emit(fmt.Sprintf("kschg %d", r.Intn(3)), "kschg", true)
+			case 1:
+				g.emit(fmt.Sprintf("ksmeta %d %s", r.Intn(2), []string{"0", "1", "2", "3", "local", "none"}[r.Intn(6)]), "ksmeta", false)
+			default:
+				g.emit(fmt.Sprintf("table %d", r.Intn(2)), "table", false)
+			}
 		default:
 			g.pick()
 		}
 	}
+}
+
+// sessionScenario (family "which replica tables does a topology change refresh"): token-aware policy whose SESSION
+// keyspace 0 has known replication (SimpleStrategy rf 0..3, sometimes LocalStrategy), keyspace 1 known to the
+// metadata too (its table only changes on KeyspaceChanged), keyspace 2 unknown; 3..7 hosts with 1..2 tokens, no two
+// host objects on one address; AddHost / RemoveHost / HostUp / HostDown (states following the session's habit most of
+// the time), metadata changes, KeyspaceChanged, table snapshots, and after every call routed full drains on the three
+// keyspaces: `offer` unless an excluded condition holds - a removed host in the SESSION keyspace's replica head is
+// NOT excluded (the code recomputes that table), only in the other keyspaces' (KF-C11-5a)
+func (g *gen) sessionScenario() {
+	r := g.r
+	g.kind = []string{"rr", "dc", "rack"}[r.Intn(3)]
+	g.ta = true
+	shuffle := r.Intn(4) == 0
+	g.nonlocal = r.Bool()
+	g.ldc, g.lrack = r.Intn(2), r.Intn(2)
+	g.emit(fmt.Sprintf("reset %s 1 %d %d %s %s %s", g.kind, g.ldc, g.lrack, b01(shuffle), b01(g.nonlocal), b01(r.Intn(10) != 0)), "reset/"+g.kind+"/ta1", false)
+	g.n = 3 + r.Intn(5)
+	g.sess = 0
+	for id := 1; id <= g.n; id++ {
+		ts := strconv.Itoa(id * 100)
+		if r.Intn(3) == 0 {
+			ts += "," + strconv.Itoa(id*100+1000+r.Intn(50))
+		}
+		g.emit(fmt.Sprintf("host %d %d %d %d %s", id, id, r.Intn(2), r.Intn(2), ts), "host", false)
+	}
+	g.emit("sessks 0", "sessks", false)
+	if r.Intn(8) == 0 {
+		g.emit("ksmeta 0 local", "ksmeta", false)
+	} else {
+		g.emit(fmt.Sprintf("ksmeta 0 %d", r.Intn(4)), "ksmeta", false)
+	}
+	g.emit(fmt.Sprintf("ksmeta 1 %d", 1+r.Intn(3)), "ksmeta", false)
+	for id := 1; id <= g.n; id++ {
+		if r.Intn(8) != 0 {
+			g.emit(fmt.Sprintf("add %d", id), "add", true)
+		}
+	}
+	if r.Bool() {
+		g.emit("kschg 1", "kschg", true)
+	}
+	observe := func() {
+		g.pickWith("0", strconv.Itoa(r.Intn((g.n+1)*100)), 1000, true)
+		if r.Bool() {
+			g.pickWith(strconv.Itoa(1+r.Intn(2)), strconv.Itoa(r.Intn((g.n+1)*100)), 1000, true)
+		}
+		if r.Intn(3) == 0 {
+			g.pickWith("-", "-", 1000, true)
+		}
+	}
+	observe()
+	for i := 12 + r.Intn(20); i > 0; i-- {
+		id := 1 + r.Intn(g.n)
+		switch x := r.Intn(100); {
+		case x < 18:
+			g.emit(fmt.Sprintf("add %d", id), "add", true)
+		case x < 40:
+			g.emit(fmt.Sprintf("remove %d", id), "remove", true)
+		case x < 50:
+			if g.w.stat(id).known { // (HostUp of an unknown host is KF-C11-4: excluded wholesale)
+				if r.Intn(4) != 0 {
+					g.emit(fmt.Sprintf("state %d 1", id), "state", false)
+				}
+				g.emit(fmt.Sprintf("hup %d", id), "hup", true)
+			}
+		case x < 60:
+			if r.Intn(4) != 0 {
+				g.emit(fmt.Sprintf("state %d 0", id), "state", false)
+			}
+			g.emit(fmt.Sprintf("hdown %d", id), "hdown", true)
+		case x < 68:
+			g.emit(fmt.Sprintf("state %d %d", id, r.Intn(4)/3^1), "state", false)
+		case x < 74:
+			g.emit(fmt.Sprintf("kschg %d", r.Intn(3)), "kschg", true)
+		case x < 78:
+			g.emit(fmt.Sprintf("ksmeta %d %s", r.Intn(2), []string{"1", "2", "3", "3", "local", "none"}[r.Intn(6)]), "ksmeta", false)
+		case x < 84:
+			g.emit(fmt.Sprintf("table %d", r.Intn(2)), "table", false)
+		default:
+		}
+		observe()
+	}
+}
+
+// interleaveScenario (family "several Pick iterators alive at once"): a policy (token-aware 4 of 5, with
+// ShuffleReplicas every other time) over 4..7 hosts, replica table of keyspace 0 installed through the hook
+// (2..3 token ranges, 2..3 replicas) or computed by the code (session keyspace); rounds of iterators over the SAME
+// routing key whose NextHost calls are interleaved: A1 B* A* - A1 B1 A2 B2 ... - A partially, a new Pick drained
+// (the executor's retry pattern), A continued - three iterators in a random schedule - A1 B1 then both drained as
+// spec-backed `offerit`. Every iterator alone must satisfy the property (checked by the harness on what the
+// iterator offered since its Pick; `offerit`: exactly the hosts the history expects, each once).
+func (g *gen) interleaveScenario(idx int) {
+	r := g.r
+	g.kind = []string{"rr", "dc", "rack"}[r.Intn(3)]
+	g.ta = idx%5 != 4
+	shuffle := g.ta && idx%2 == 0
+	g.nonlocal = g.ta && r.Bool()
+	g.ldc, g.lrack = 0, 0
+	g.emit(fmt.Sprintf("reset %s %s 0 0 %s %s 1", g.kind, b01(g.ta), b01(shuffle), b01(g.nonlocal)), "reset/"+g.kind+"/ta"+b01(g.ta), false)
+	g.n = 4 + r.Intn(4)
+	g.sess = -1
+	for id := 1; id <= g.n; id++ {
+		dc, rack := 0, 0
+		if r.Intn(4) == 0 {
+			dc = 1
+		}
+		if r.Intn(3) == 0 {
+			rack = 1
+		}
+		g.emit(fmt.Sprintf("host %d %d %d %d %d", id, id, dc, rack, id*100), "host", false)
+	}
+	useSess := g.ta && r.Intn(3) == 0
+	if useSess {
+		g.sess = 0
+		g.emit("sessks 0", "sessks", false)
+		g.emit(fmt.Sprintf("ksmeta 0 %d", 2+r.Intn(2)), "ksmeta", false)
+	}
+	for id := 1; id <= g.n; id++ {
+		g.emit(fmt.Sprintf("add %d", id), "add", true)
+	}
+	if g.ta && !useSess {
+		// 2..3 token ranges with 2..3 distinct replicas each
+		var parts []string
+		for t := 0; t < 2+r.Intn(2); t++ {
+			k := 2 + r.Intn(2)
+			var ids []string
+			for _, j := range rngPerm(r, g.n)[:k] {
+				ids = append(ids, strconv.Itoa(j+1))
+			}
+			parts = append(parts, fmt.Sprintf("%d:%s", 300*(t+1), strings.Join(ids, ",")))
+		}
+		g.emit("repl 0 "+strings.Join(parts, " "), "repl", false)
+	}
+	if r.Intn(3) == 0 {
+		g.emit(fmt.Sprintf("state %d 0", 1+r.Intn(g.n)), "state", false)
+	}
+	ks, cls := "0", "/"+g.kind+"/ta"
+	if !g.ta {
+		ks, cls = "-", "/"+g.kind+"/plain"
+	}
+	if shuffle {
+		cls += "/shuffle"
+	}
+	perms := func() string {
+		if g.w.shuf {
+			return permsFor(int64(r.Intn(seedSpace)))
+		}
+		return "-"
+	}
+	ended := func(a string) bool { return strings.HasSuffix(a, " end") || strings.HasPrefix(a, "crash:") || a == "bad-op" }
+	open := func(slot int, tk string) {
+		g.emit(fmt.Sprintf("open %d %s %s %s", slot, ks, tk, perms()), "open"+cls, true)
+	}
+	next := func(slot, n int, pat string) bool {
+		return ended(g.emit(fmt.Sprintf("next %d %d", slot, n), "next"+cls+"/"+pat, true))
+	}
+	// finish: drain the rest - as the spec-backed op where no excluded condition holds
+	finish := func(slot int, pat string) {
+		if sl, ok := g.w.slots[slot]; ok && g.w.slotExcluded(sl) == "" && r.Intn(3) != 0 {
+			g.emit(fmt.Sprintf("offerit %d", slot), "offerit"+cls+"/"+pat, true)
+		} else {
+			next(slot, 1000, pat)
+		}
+	}
+	for round := 0; round < 4; round++ {
+		tk := "-"
+		if g.ta {
+			tk = strconv.Itoa(r.Intn((g.n + 1) * 100))
+		}
+		switch (idx + round) % 6 {
+		case 5: // the cluster changes while an iterator is alive (no state change: that would end its life)
+			open(0, tk)
+			open(1, tk)
+			next(0, 1+r.Intn(2), "mutate-alive")
+			for k := 1 + r.Intn(2); k > 0; k-- {
+				id := 1 + r.Intn(g.n)
+				switch r.Intn(4) {
+				case 0:
+					g.emit(fmt.Sprintf("hdown %d", id), "hdown", true)
+				case 1:
+					g.emit(fmt.Sprintf("remove %d", id), "remove", true)
+				case 2:
+					g.emit(fmt.Sprintf("add %d", id), "add", true)
+				default:
+					if g.w.stat(id).known {
+						g.emit(fmt.Sprintf("hup %d", id), "hup", true)
+					}
+				}
+				next(r.Intn(2), 1, "mutate-alive")
+			}
+			next(0, 1000, "mutate-alive")
+			next(1, 1000, "mutate-alive")
+		case 0: // A1 B* A*
+			open(0, tk)
+			next(0, 1, "a1-b-a")
+			open(1, tk)
+			finish(1, "a1-b-a")
+			finish(0, "a1-b-a")
+		case 1: // A1 B1 A2 B2 ...
+			open(0, tk)
+			open(1, tk)
+			ea, eb := false, false
+			for k := 0; k < g.n+3 && !(ea && eb); k++ {
+				if !ea {
+					ea = next(0, 1, "alternate")
+				}
+				if !eb {
+					eb = next(1, 1, "alternate")
+				}
+			}
+		case 2: // the executor's retry pattern: A partially consumed, a new Pick (drained), A continued
+			open(0, tk)
+			next(0, 1+r.Intn(2), "retry")
+			g.pickWith(ks, tk, 1000, r.Bool())
+			if r.Bool() {
+				next(0, 1, "retry")
+				g.pickWith(ks, tk, 1+r.Intn(3), false)
+			}
+			finish(0, "retry")
+		case 3: // three iterators, random schedule
+			for sl := 0; sl < 3; sl++ {
+				open(sl, tk)
+			}
+			done := [3]bool{}
+			for k := 0; k < 4*(g.n+3) && !(done[0] && done[1] && done[2]); k++ {
+				sl := r.Intn(3)
+				if !done[sl] {
+					done[sl] = next(sl, 1+r.Intn(2), "random3")
+				}
+			}
+		case 4: // A1 B1, then both drained
+			open(0, tk)
+			next(0, 1, "a1-b1-drain")
+			open(1, tk)
+			next(1, 1, "a1-b1-drain")
+			finish(0, "a1-b1-drain")
+			finish(1, "a1-b1-drain")
+		}
+		// now and then the cluster changes between rounds
+		if r.Intn(3) == 0 {
+			id := 1 + r.Intn(g.n)
+			switch r.Intn(3) {
+			case 0:
+				g.emit(fmt.Sprintf("state %d 0", id), "state", false)
+				g.emit(fmt.Sprintf("hdown %d", id), "hdown", true)
+			case 1:
+				g.emit(fmt.Sprintf("remove %d", id), "remove", true)
+			default:
+				g.emit(fmt.Sprintf("state %d 1", id), "state", false)
+				g.emit(fmt.Sprintf("add %d", id), "add", true)
+			}
+		}
+	}
+}
+
+// burstScenario (family "bursts of CONCURRENT topology calls"): a policy (bare or token-aware with a session
+// keyspace) that knows 24..48 hosts; rounds in which 2..8 goroutines, released together, each make ONE call -
+// AddHost of distinct new hosts (nodes joining at once), HostDown / HostUp of distinct hosts (nodes flapping),
+// RemoveHost of distinct hosts, a mix of all four on distinct hosts, the same call for the same host from several
+// goroutines, and non-commuting calls on the same host (either order accepted; settled by a sequential RemoveHost
+// afterwards) - each followed, at quiescence, by `settle` (the lists observed; the model checks that no call
+// on a host without non-commuting calls was lost, no host twice, nobody else moved) and by the sequential history
+// oracle `offer`.
+func (g *gen) burstScenario(idx, rounds int) {
+	r := g.r
+	g.kind = []string{"rr", "dc", "rack"}[idx%3]
+	g.ta = idx%2 == 1
+	g.nonlocal = g.ta && r.Bool()
+	g.ldc, g.lrack = 0, 0
+	g.sess = -1
+	g.emit(fmt.Sprintf("reset %s %s 0 0 0 %s 1", g.kind, b01(g.ta), b01(g.nonlocal)), "reset/"+g.kind+"/ta"+b01(g.ta), false)
+	base := 24 + r.Intn(25)
+	const pool = 8
+	g.n = base + pool
+	for id := 1; id <= g.n; id++ {
+		// most hosts in the local tier: long lists
+		dc, rack := 0, 0
+		if r.Intn(6) == 0 {
+			dc = 1
+		}
+		if r.Intn(6) == 0 {
+			rack = 1
+		}
+		g.emit(fmt.Sprintf("host %d %d %d %d %d", id, id, dc, rack, id*10), "host", false)
+	}
+	if g.ta {
+		g.sess = 0
+		g.emit("sessks 0", "sessks", false)
+		g.emit(fmt.Sprintf("ksmeta 0 %d", 2+r.Intn(2)), "ksmeta", false)
+	}
+	for id := 1; id <= base; id++ {
+		g.emit(fmt.Sprintf("add %d", id), "add", true)
+	}
+	cls := "/" + g.kind + "/ta" + b01(g.ta)
+	burst := func(kind string, calls []string) {
+		if len(calls) < 2 {
+			return // a burst needs two calls
+		}
+		for i := len(calls) - 1; i > 0; i-- {
+			j := r.Intn(i + 1)
+			calls[i], calls[j] = calls[j], calls[i]
+		}
+		a := g.emit("burst "+strings.Join(calls, " "), "burst"+cls+"/"+kind, true)
+		if a != "ok" {
+			return
+		}
+		g.emit("settle "+g.w.snapshot(), "settle"+cls+"/"+kind, true)
+		g.pickWith("-", "-", 1000, true)
+		if g.ta {
+			// routed queries whose replica lists start at hosts of the burst (token of host id = id*10), and a random one
+			for i, c := range calls {
+				if i < 3 {
+					g.pickWith("0", c[strings.Index(c, ":")+1:]+"0", 1000, true)
+				}
+			}
+			g.pickWith("0", strconv.Itoa(r.Intn(g.n*10)), 1000, true)
+		}
+	}
+	// k distinct hosts satisfying a condition on their history
+	choose := func(k int, from, to int, cond func(st hstat) bool) []int {
+		var out []int
+		for _, j := range rngPerm(r, to-from+1) {
+			id := from + j
+			if len(out) < k && cond(g.w.stat(id)) {
+				out = append(out, id)
+			}
+		}
+		return out
+	}
+	calls := func(call string, ids []int) []string {
+		var out []string
+		for _, id := range ids {
+			out = append(out, fmt.Sprintf("%s:%d", call, id))
+		}
+		return out
+	}
+	known := func(st hstat) bool { return st.known }
+	unknown := func(st hstat) bool { return !st.known }
+	knownUp := func(st hstat) bool { return st.known && st.last != "hdown" }
+	knownDown := func(st hstat) bool { return st.known && st.last == "hdown" }
+	for round := 0; round < rounds; round++ {
+		k := 2 + r.Intn(7)
+		switch (idx + round) % 8 {
+		case 0, 4: // nodes joining at once
+			if c := calls("add", choose(k, base+1, g.n, unknown)); len(c) >= 2 {
+				burst("join", c)
+			} else {
+				burst("leave", calls("remove", choose(k, base+1, g.n, known)))
+			}
+		case 1: // nodes reported down at once, then up again at once
+			ids := choose(k, 1, g.n, knownUp)
+			burst("down", calls("hdown", ids))
+			burst("up", calls("hup", choose(8, 1, g.n, knownDown)))
+		case 2: // nodes leaving at once
+			burst("leave", calls("remove", choose(k, 1, g.n, known)))
+			burst("join", calls("add", choose(8, 1, g.n, unknown)))
+		case 3: // everything at once, on distinct hosts
+			c := calls("add", choose(1+r.Intn(3), 1, g.n, unknown))
+			c = append(c, calls("remove", choose(1+r.Intn(2), 1, base, knownUp))...)
+			c = append(c, calls("hdown", choose(1+r.Intn(2), base/2, g.n, knownUp))...)
+			c = append(c, calls("hup", choose(2, 1, g.n, knownDown))...)
+			c = dedupCalls(c)
+			burst("mixed", c)
+			burst("up", calls("hup", choose(8, 1, g.n, knownDown)))
+		case 5: // the same call for the same host from several goroutines
+			var c []string
+			for _, id := range choose(1+r.Intn(3), 1, g.n, unknown) {
+				for j := 2 + r.Intn(2); j > 0; j-- {
+					c = append(c, fmt.Sprintf("add:%d", id))
+				}
+			}
+			for _, id := range choose(1+r.Intn(2), 1, g.n, knownUp) {
+				c = append(c, fmt.Sprintf("hup:%d", id), fmt.Sprintf("add:%d", id))
+			}
+			burst("same", c)
+		case 6: // flapping: down and up of distinct hosts overlap
+			c := calls("hdown", choose(k/2+1, 1, g.n, knownUp))
+			c = append(c, calls("hup", choose(4, 1, g.n, knownDown))...)
+			burst("flap", c)
+			burst("up", calls("hup", choose(8, 1, g.n, knownDown)))
+		default: // non-commuting calls on the same host: either order is accepted
+			ids := choose(1+r.Intn(2), 1, g.n, known)
+			var c []string
+			for _, id := range ids {
+				c = append(c, fmt.Sprintf("remove:%d", id), fmt.Sprintf("add:%d", id))
+			}
+			c = append(c, calls("add", choose(2, base+1, g.n, unknown))...)
+			burst("conflict", c)
+			for _, id := range ids {
+				g.emit(fmt.Sprintf("remove %d", id), "remove", true)
+			}
+			g.pickWith("-", "-", 1000, true)
+			for _, id := range ids {
+				if r.Bool() {
+					g.emit(fmt.Sprintf("add %d", id), "add", true)
+				}
+			}
+			g.pickWith("-", "-", 1000, true)
+		}
+	}
+}
+
+// rngPerm: a permutation of 0..n-1 from the harness' own generator
+func rngPerm(r *vh.Rng, n int) []int {
+	p := make([]int, n)
+	for i := range p {
+		p[i] = i
+	}
+	for i := n - 1; i > 0; i-- {
+		j := r.Intn(i + 1)
+		p[i], p[j] = p[j], p[i]
+	}
+	return p
+}
+
+func dedupCalls(c []string) []string {
+	seen := map[string]bool{}
+	var out []string
+	for _, x := range c {
+		id := x[strings.Index(x, ":")+1:]
+		if !seen[id] {
+			seen[id] = true
+			out = append(out, x)
+		}
+	}
+	return out
 }
 
 func (g *gen) repl() {
@@ -943,6 +2059,219 @@ func (g *gen) pickWith(ks, tk string, limit int, wantOffer bool) string {
 	return g.emit(fmt.Sprintf("pick %s %s %d %s", ks, tk, limit, perms), "pick"+cls, true)
 }
 
+// rotShapes: sizes of the three tiers (local rack / local DC / remote DC): nearer tiers of size 0, 1, 2, sizes
+// that are not multiples of each other, equal sizes
+var rotShapes = [][3]int{{1, 4, 3}, {2, 6, 5}, {3, 3, 3}, {0, 4, 3}, {1, 1, 5}, {2, 3, 0}, {0, 0, 4}, {1, 5, 2}, {2, 5, 3},
+	{4, 2, 3}, {1, 3, 0}, {0, 2, 5}, {3, 4, 5}, {1, 2, 3}, {2, 4, 4}, {1, 6, 4}, {5, 1, 2}, {1, 0, 3}}
+
+func gcd(a, b int) int {
+	for b != 0 {
+		a, b = b, a%b
+	}
+	return a
+}
+
+// rotationScenario (fourth round; family "successive queries rotate the starting host WITHIN EVERY TIER so load is
+// spread"): every round-robin based policy (rr / dc / rack), alone, as token-aware fallback without routing key and
+// as token-aware fallback with routing key (replica table installed / computed for the session keyspace / ring owner),
+// over the tier shapes of rotShapes and random ones, hosts added in random order, the rotation counter preset to
+// random places (small, around 2^31 and 2^32, 40 bit). Rounds: some hosts set DOWN BUT STILL LISTED (state only, no
+// HostDown) - now and then every host of the nearest non-empty tier -, hosts added / removed / reported down, then
+// the spec-backed op `rotate`: m = k * lcm(tier sizes) successive picks (every start position of every tier exactly
+// k times) or an arbitrary m (the +-1 form), each drained, and per tier - also the tiers that are not the first
+// non-empty one - the histogram of the first host offered.
+func (g *gen) rotationScenario(idx int) {
+	r := g.r
+	g.kind = []string{"rack", "dc", "rack", "rr", "rack", "dc"}[idx%6]
+	variant := (idx / 6) % 3 // 0 bare, 1 token-aware without routing key, 2 token-aware with routing key
+	g.ta = variant != 0
+	shuffle := g.ta && r.Intn(3) == 0
+	g.nonlocal = g.ta && r.Bool()
+	g.ldc, g.lrack = r.Intn(2), r.Intn(2)
+	g.sess = -1
+	g.emit(fmt.Sprintf("reset %s %s %d %d %s %s 1", g.kind, b01(g.ta), g.ldc, g.lrack, b01(shuffle), b01(g.nonlocal)), "reset/"+g.kind+"/ta"+b01(g.ta), false)
+	var shape [3]int
+	if idx < 3*len(rotShapes) {
+		shape = rotShapes[(idx+idx/len(rotShapes))%len(rotShapes)]
+	} else {
+		for shape[0]+shape[1]+shape[2] == 0 {
+			shape = [3]int{r.Intn(4), r.Intn(7), r.Intn(6)}
+		}
+	}
+	switch g.kind {
+	case "dc":
+		if shape[1] == 0 {
+			shape[1] = shape[2]
+		}
+		shape[2] = 0
+	case "rr":
+		if shape[1] == 0 {
+			shape[1] = shape[2]
+		}
+		if shape[1] == 0 {
+			shape[1] = shape[0]
+		}
+		shape[0], shape[1], shape[2] = shape[1], 0, 0
+	}
+	if shape[0]+shape[1]+shape[2] == 0 {
+		shape[0] = 1 + r.Intn(5)
+	}
+	sessTable := variant == 2 && r.Intn(3) == 0
+	if sessTable {
+		g.sess = 0
+		g.emit("sessks 0", "sessks", false)
+		g.emit(fmt.Sprintf("ksmeta 0 %d", 1+r.Intn(3)), "ksmeta", false)
+	}
+	place := func(t int) (int, int) { // dc, rack of a host of tier t
+		switch g.kind {
+		case "rack":
+			switch t {
+			case 0:
+				return g.ldc, g.lrack
+			case 1:
+				return g.ldc, (g.lrack + 1 + r.Intn(2)) % 3
+			}
+			return 1 - g.ldc, r.Intn(3)
+		case "dc":
+			if t == 0 {
+				return g.ldc, r.Intn(3)
+			}
+			return 1 - g.ldc, r.Intn(3)
+		}
+		return r.Intn(2), r.Intn(3)
+	}
+	g.n = 0
+	newHost := func(t int) int {
+		g.n++
+		dc, rack := place(t)
+		g.emit(fmt.Sprintf("host %d %d %d %d %d", g.n, g.n, dc, rack, g.n*100), "host", false)
+		return g.n
+	}
+	var ids []int
+	for t := 0; t < 3; t++ {
+		for k := 0; k < shape[t]; k++ {
+			ids = append(ids, newHost(t))
+		}
+	}
+	for _, j := range rngPerm(r, len(ids)) {
+		g.emit(fmt.Sprintf("add %d", ids[j]), "add", true)
+	}
+	if variant == 2 && !sessTable && r.Intn(4) != 0 {
+		var parts []string
+		for t := 0; t < 2+r.Intn(2); t++ {
+			k := 1 + r.Intn(3)
+			if k > g.n {
+				k = g.n
+			}
+			var l []string
+			for _, j := range rngPerm(r, g.n)[:k] {
+				l = append(l, strconv.Itoa(j+1))
+			}
+			parts = append(parts, fmt.Sprintf("%d:%s", (g.n*100/3+1)*(t+1), strings.Join(l, ",")))
+		}
+		g.emit("repl 0 "+strings.Join(parts, " "), "repl", false)
+	}
+	if r.Bool() {
+		n := uint64(r.Intn(1000))
+		switch r.Intn(4) {
+		case 0:
+			n = 1<<31 - 1 - uint64(r.Intn(40))
+		case 1:
+			n = 1<<32 - 1 - uint64(r.Intn(40))
+		case 2:
+			n = r.U64() >> 24
+		}
+		g.emit(fmt.Sprintf("ctr %d", n), "ctr/rot", true)
+	}
+	variantName := []string{"plain", "ta-nokey", "ta-key"}[variant]
+	for round := 0; round < 3; round++ {
+		// the cluster between the rounds
+		muts := 0
+		if round > 0 {
+			muts = 1 + r.Intn(2)
+		} else if r.Intn(4) == 0 {
+			muts = 1
+		}
+		for ; muts > 0; muts-- {
+			id := 1 + r.Intn(g.n)
+			switch x := r.Intn(20); {
+			case x < 7: // down but still listed
+				g.emit(fmt.Sprintf("state %d 0", id), "state", false)
+			case x < 10: // every host of the nearest non-empty tier down but listed: all queries go on to the next tier
+				for t := 0; t < 3; t++ {
+					var in []int
+					for _, i := range g.w.sortedIDs() {
+						if st := g.w.stat(i); (st.last == "add" || st.last == "hup") && g.w.tier(g.w.hosts[i]) == t {
+							in = append(in, i)
+						}
+					}
+					if len(in) > 0 {
+						for _, i := range in {
+							g.emit(fmt.Sprintf("state %d 0", i), "state", false)
+						}
+						break
+					}
+				}
+			case x < 13: // every host up again
+				for _, i := range g.w.sortedIDs() {
+					if !g.w.hosts[i].IsUp() {
+						g.emit(fmt.Sprintf("state %d 1", i), "state", false)
+					}
+				}
+			case x < 16: // a node joins
+				g.emit(fmt.Sprintf("add %d", newHost(r.Intn(3))), "add", true)
+			case x < 18:
+				g.emit(fmt.Sprintf("remove %d", id), "remove", true)
+			default: // reported down the way the session does it
+				g.emit(fmt.Sprintf("state %d 0", id), "state", false)
+				g.emit(fmt.Sprintf("hdown %d", id), "hdown", true)
+			}
+		}
+		ks, tk := "-", "-"
+		if variant == 2 {
+			ks, tk = "0", strconv.Itoa(r.Intn((g.n+1)*100))
+		}
+		// sizes of the tiers as the history has them
+		var size [3]int
+		downListed := false
+		for _, i := range g.w.sortedIDs() {
+			if st := g.w.stat(i); st.last == "add" || st.last == "hup" {
+				size[g.w.tier(g.w.hosts[i])]++
+				if !g.w.hosts[i].IsUp() {
+					downListed = true
+				}
+			}
+		}
+		lcm := 1
+		for _, n := range size {
+			if n > 0 {
+				lcm = lcm / gcd(lcm, n) * n
+			}
+		}
+		m, mcls := lcm*(1+r.Intn(3)), "whole-periods"
+		if m > 180 {
+			m = lcm
+		}
+		if m > 180 || r.Intn(3) == 0 {
+			m, mcls = 1+r.Intn(2*(size[0]+size[1]+size[2])+4), "any-m"
+		}
+		cls := fmt.Sprintf("/%s/%s/%d-%d-%d/%s", g.kind, variantName, size[0], size[1], size[2], mcls)
+		if downListed {
+			cls += "/down-listed"
+		}
+		reps, known, _ := g.w.specReplicas(ks, tk, "-")
+		if x := g.w.exclusion(reps, known, g.w.specFresh(ks)); x != "" {
+			g.pickWith(ks, tk, 1000, false)
+			g.pickWith(ks, tk, 1000, false)
+			continue
+		}
+		g.emit(fmt.Sprintf("rotate %s %s %d", ks, tk, m), "rotate"+cls, true)
+		if r.Intn(4) == 0 {
+			g.pickWith(ks, tk, 1000, true)
+		}
+	}
+}
+
 func b01(x bool) string {
 	if x {
 		return "1"
@@ -1004,6 +2333,12 @@ func (g *gen) boundaryScenario(hot bool) {
 		}
 		k := uint64(1 + r.Intn(8))
 		g.emit(fmt.Sprintf("ctr %d", base-k), "ctr/"+name, true)
+		if !hot && round == 1 && r.Bool() {
+			// the spec-backed rotation histogram across the boundary
+			if reps, known, _ := g.w.specReplicas("-", "-", "-"); g.w.exclusion(reps, known, true) == "" {
+				g.emit(fmt.Sprintf("rotate - - %d", 12+r.Intn(30)), "rotate/"+g.kind+"/boundary/"+name, true)
+			}
+		}
 		for i := 0; i < 16; i++ {
 			switch x := r.Intn(10); {
 			case x < 7 || !g.ta:
@@ -1044,13 +2379,41 @@ func (g *gen) historyScenario(kind string, ta bool, seq []int) {
 		}
 		g.emit(fmt.Sprintf("host %d %d %d %d %d", id, id, pl[0], pl[1], id*100), "host", false)
 	}
-	for id := 2; id <= 3; id++ {
-		if r.Intn(6) != 0 {
-			g.emit(fmt.Sprintf("add %d", id), "add", true)
+	addOthers := func() {
+		for id := 2; id <= 3; id++ {
+			if r.Intn(6) != 0 {
+				g.emit(fmt.Sprintf("add %d", id), "add", true)
+			}
 		}
 	}
-	if ta && r.Intn(4) != 0 {
+	// the replica table of keyspace 0: none / installed through the hook (a keyspace other than the session's: never
+	// recomputed, KF-C11-5a) / keyspace 0 IS the session keyspace with SimpleStrategy: recomputed by the code itself
+	// on every AddHost / RemoveHost that changes the policy's host list
+	mode := 0
+	if ta {
+		mode = []int{0, 0, 1, 1, 1, 2, 2, 3}[r.Intn(8)]
+	}
+	switch mode {
+	case 0:
+		addOthers()
+	case 1:
+		addOthers()
 		g.emit("repl 0 150:1,2 250:2,3 350:3,1", "repl", false)
+	case 2:
+		// the session keyspace and its replication are known before the first AddHost
+		g.emit("sessks 0", "sessks", false)
+		g.emit(fmt.Sprintf("ksmeta 0 %d", 1+r.Intn(3)), "ksmeta", false)
+		addOthers()
+		g.emit("table 0", "table", false)
+	default:
+		// the replication of the session keyspace becomes known after the hosts were added (KeyspaceChanged)
+		g.emit("sessks 0", "sessks", false)
+		addOthers()
+		g.emit(fmt.Sprintf("ksmeta 0 %d", 1+r.Intn(3)), "ksmeta", false)
+		if r.Intn(3) != 0 {
+			g.emit("kschg 0", "kschg", true)
+		}
+		g.emit("table 0", "table", false)
 	}
 	observe := func() {
 		g.pickWith("-", "-", 1000, true)
@@ -1268,10 +2631,34 @@ func main() {
 	g := &gen{r: r, out: out, w: &world{}}
 	// the two families with an observation right after every mutation come first, so that the first
 	// disagreements of a run are on observed sequences (spec-backed) and not on list snapshots
+	// (third round) the iterator-interleaving family comes first: a breach there is a breach of the property by one
+	// iterator (a failing history), and it must not be buried under follow-up disagreements of sequences
+	ni, nbu, nbr, nse := 60, 24, 12, 120
+	if tier == "thorough" {
+		ni, nbu, nbr, nse = 1800, 240, 40, 3600
+	}
+	// (fourth round) the rotation family comes first of all: its observations are spec-backed (`rotate`), a skewed
+	// tier there is a failing input of the rotation sub-claim and must not be buried under sequence disagreements
+	nro := 108
+	if tier == "thorough" {
+		nro = 3240
+	}
+	for i := 0; i < nro; i++ {
+		g.rotationScenario(i)
+	}
+	for i := 0; i < ni; i++ {
+		g.interleaveScenario(i)
+	}
+	for i := 0; i < nbu; i++ {
+		g.burstScenario(i, nbr)
+	}
 	if tier == "thorough" {
 		g.histories(5, 400)
 	} else {
 		g.histories(3, 40)
+	}
+	for i := 0; i < nse; i++ {
+		g.sessionScenario()
 	}
 	nb := 150
 	if tier == "thorough" {
